@@ -137,13 +137,27 @@ pub enum Mode {
     Fail,
 }
 
-#[derive(Clone, Debug)]
+#[derive(Clone)]
 pub struct View {
     pub tag: &'static str,
     pub map: Arc<ContractMap>,
     pub mode: Mode,
     /// shared log of every request (used where programs run on threads the harness does not own)
     pub log: Option<Arc<Mutex<Vec<Read>>>>,
+    /// schedule perturbation: how long the calling task is held up inside this request
+    pub delay: Option<Arc<dyn Fn(&[i64]) -> std::time::Duration + Send + Sync>>,
+}
+
+impl std::fmt::Debug for Mode2 {
+    fn fmt(&self, f: &mut std::fmt::Formatter) -> std::fmt::Result {
+        write!(f, "-")
+    }
+}
+pub struct Mode2;
+impl std::fmt::Debug for View {
+    fn fmt(&self, f: &mut std::fmt::Formatter) -> std::fmt::Result {
+        write!(f, "View({}, {:?})", self.tag, self.mode)
+    }
 }
 
 #[derive(Debug, Clone)]
@@ -169,7 +183,7 @@ pub fn next_key(mut key: Key) -> Option<Key> {
 
 impl View {
     pub fn new(tag: &'static str, map: ContractMap, mode: Mode) -> Self {
-        View { tag, map: Arc::new(map), mode, log: None }
+        View { tag, map: Arc::new(map), mode, log: None, delay: None }
     }
     pub fn empty(tag: &'static str) -> Self {
         View::new(tag, Default::default(), Mode::Lenient)
@@ -202,6 +216,12 @@ impl View {
 impl StateRead for View {
     type Error = StateErr;
     fn key_range(&self, contract_addr: ContentAddress, key: Key, num_values: usize) -> Result<Vec<Vec<Word>>, StateErr> {
+        if let Some(d) = &self.delay {
+            let dur = d(&key);
+            if !dur.is_zero() {
+                std::thread::sleep(dur);
+            }
+        }
         let resp = self.answer(&contract_addr.0, &key, num_values);
         let rd = Read { view: self.tag, contract: contract_addr.0, key: key.clone(), n: num_values, resp: resp.clone() };
         if let Some(log) = &self.log {
